@@ -124,7 +124,12 @@ def run(ctx, coq_ok):
         jobs.append(("ansi", "jinja", i % 2, "jinja-gen", corpus.gen_jinja(rng)))
     fixed = ["SELECT {% for c in ['a','b'] %}{% if c == 'a' %}x{% else %}y{% endif %}_{{ c }},\n    {% endfor %} 1 FROM t\n",
              "{% if flag %}SELECT 1{% else %}SELECT 2{% endif %}\n{% for i in items %}UNION ALL SELECT {{ i }}\n{% endfor %}",
-             "SELECT a {#- c -#} , b FROM {{ tbl }} {%- if other %} WHERE 1=1 {%- endif %}\n"]
+             "SELECT a {#- c -#} , b FROM {{ tbl }} {%- if other %} WHERE 1=1 {%- endif %}\n",
+             # loops that revisit source before an unreached branch (the variant's slices are not in source order)
+             "SELECT {% for c in ['a','b','c'] %}x_{{ c }} {% if c == 'zz' %}Y{% else %}N{% endif %},\n{% endfor %} 1 FROM t\n",
+             "{% for i in range(3) %}SELECT col_{{ i }}  {% if i > 5 %}, extra_long_column_name{% endif %} FROM t{{ i }};\n{% endfor %}",
+             "SELECT 1\n{% for t in items %}UNION ALL SELECT {{ t }} {% if undefined_flag %}, 2{% elif other %}, 3{% endif %}\n{% endfor %}",
+             "{% for a in ['p','q'] %}{% for b in [1,2] %}{{ a }}{{ b }} {% if b == 9 %}never{% endif %}, {% endfor %}{% endfor %} z\n"]
     for i, s in enumerate(fixed):
         for c in (0, 1):
             jobs.append(("ansi", "jinja", c, "jinja-fixed-%d" % i, s))
